@@ -28,9 +28,12 @@ MANIFEST = dict(
     note="Modelled and proved since X11 (no longer assumed): chrono 0.4.38's calendar rendering of the creation date for every "
          "second count (text denotes exactly the stored integer, valid proleptic-Gregorian fields, strictly monotone, defined "
          "exactly up to 8210266876799 = 262142-12-31 23:59:59, the Creation Date row determines the stored integer) and Bytes "
-         "Display (C16's model); both tied to the real binary by the run (boundary sweep + random second counts). Assumed "
-         "(Section variables, validated in the runs): url-crate normal forms of update-url and node hosts (generated in normal "
-         "form). Trusted: Coq kernel, tools/rs2v_summary.py, extraction + runner/driver.d/summary.ml, calendar.ml, Python oracle "
+         "Display (C16's model); both tied to the real binary by the run (boundary sweep + random second counts). Since X14 the "
+         "url crate is concrete too inside stated fragments (Model/UrlConcrete.v: c_url_norm, c_host_disp over the X9 / X10 models): show "
+         "prints update_url / dht_nodes as the normal form of what the file says and a file written in normal form byte for byte "
+         "(c07_concrete_*), and show with no library variable left is compared with the binary on every file of the run inside the "
+         "fragments. Assumed (Section variables of the general theorems, validated in the runs): url-crate normal forms of update-url and "
+         "node hosts outside those fragments (IDNA / non-ASCII hosts, file: URLs, URLs without `//`). Trusted: Coq kernel, tools/rs2v_summary.py, extraction + runner/driver.d/summary.ml, calendar.ml, Python oracle "
          "in tools/props/c07.py. Info hash itself is C04's.")
 
 U63 = (1 << 63) - 1
@@ -1095,6 +1098,7 @@ def run(ctx):
                 ctx.count("impl_rejects_unmodelled:" + kind)
             if kind == "valid" and accepted:
                 ctx.sample({"torrent_hex": data.hex()[:400], "json": runs["json"][1].decode("utf-8", "replace")[:400]}, cap=3)
+        x14_tie(ctx, cases, allruns)
         calendar_sweep(ctx, tmp)
     finally:
         shutil.rmtree(tmp, ignore_errors=True)
@@ -1105,12 +1109,94 @@ def run(ctx):
     return finish(ctx)
 
 
+def x14_tie(ctx, cases, allruns):
+    """X14: `torrent show` with NO url-crate variable left (UrlConcrete.c_show = show_concrete at c_host_disp / c_url_norm) against
+    the real binary, on every file of the run whose update-url and node hosts the model places inside the fragments; and every
+    update-url, node host and encoded node of the run through the instances and the hooks (urlconcrete.Tie)."""
+    from props import urlconcrete
+    tie = urlconcrete.Tie(ctx, "c07")
+    for (kind, expect, top, data), runs in zip(cases, allruns):
+        try:
+            v, _ = lib.bdecode_strict(data)
+        except Exception:
+            continue
+        uu = lib.dget(lib.dget(v, "info"), "update-url")
+        if isinstance(uu, bytes):
+            tie.url(uu, "info.update-url of a torrent (%s)" % kind)
+        nodes = lib.dget(v, "nodes")
+        for nd in nodes if isinstance(nodes, list) else []:
+            tie.node(lib.bencode(nd), "node of a torrent (%s)" % kind)
+            if isinstance(nd, list) and nd and isinstance(nd[0], bytes):
+                tie.host(nd[0], "node host of a torrent (%s)" % kind)
+                if len(nd) == 2 and isinstance(nd[1], int) and not isinstance(nd[1], bool) and 0 <= nd[1] < 65536:
+                    tie.hostport(urlconcrete.rebracket(nd[0]) + b":%d" % nd[1], "node of a torrent as show prints it (%s)" % kind)
+    from props import c17, urlnorm
+    for _ in range(ctx.n(300, 5000)):                       # more hosts and update URLs than the files of the run carry
+        tie.host(ghost(ctx.rng).encode(), "c07 node host generator")
+        tie.url(gurl(ctx.rng), "c07 update-url generator")
+        k = ctx.rng.random()                                # C17's spellings: odd domains, IPv4 in every radix, IPv6 in every form
+        h = c17.host_domain(ctx.rng) if k < 0.35 else c17.host_ipv4(ctx.rng) if k < 0.6 else c17.host_ipv6(ctx.rng)
+        tie.host(h, "c17 host generator (as a stored node host)")
+    for h in list(urlnorm.HOSTS) + list(c17.V4_EDGES) + c17.host_ipv6_sweep(ctx.rng)[::3]:
+        tie.host(urlconcrete.unbracket(h.encode("utf-8")), "recorded odd host spellings (as a stored node host)")
+    tie.run()
+    replies = ctx.model(["c_show " + lib.hexs(c[3]) for c in cases])
+    for (kind, expect, top, data), runs, rep in zip(cases, allruns, replies):
+        f = rep.split(" ")
+        ctx.cov["evaluations"] += 1
+        case = {"kind": kind, "x14": "c_show", "torrent_hex": data.hex(), "model": rep[:600], "rc": runs["json"][0],
+                "json_stdout": runs["json"][1].decode("utf-8", "replace")[:2000], "reproduce": repro(data)}
+        if f[0] not in ("IN", "OUT") or len(f) < 2:
+            ctx.violation("infrastructure", "X14 c_show: model runner replied %r" % rep[:200], case); continue
+        if f[0] == "OUT":
+            ctx.count("x14_show_out_of_fragment"); continue
+        ctx.count("x14_show_in_fragment")
+        accepted = runs["json"][0] == 0
+        if f[1] == "REJ":
+            ctx.cov["traces_validated_against_impl"] += 1
+            if accepted:
+                ctx.cov["disagreements_checked"] += 1
+                ctx.violation("model-impl-disagreement", "X14: show with the concrete url-crate instances refuses a file (inside the fragments) "
+                              "for which the binary prints a report (%s)" % kind, case)
+            continue
+        if not accepted:
+            ctx.count("x14_show_model_ok_impl_rejects:" + kind); continue
+        ctx.cov["traces_validated_against_impl"] += 1
+        try:
+            got = json.loads(runs["json"][1].decode("utf-8"))
+        except Exception:
+            continue
+        want_upd = None if f[2] == "~" else lib.unhex(f[2]).decode("utf-8", "replace")
+        want_nodes = [x.decode("utf-8", "replace") for x in lib.unhexlist(f[3])]
+        ctx.distinct(("x14-show", want_upd is None, len(want_nodes), (want_upd or "")[:10]))
+        if got.get("update_url") != want_upd or (got.get("dht_nodes") or []) != want_nodes:
+            ctx.cov["disagreements_checked"] += 1
+            ctx.violation("model-impl-disagreement", "X14: update_url / dht_nodes printed by the binary %r / %r, by show with the concrete "
+                          "url-crate instances %r / %r" % (got.get("update_url"), got.get("dht_nodes"), want_upd, want_nodes), case)
+        # the tie's own tables: what show printed is c_host_disp of the stored host
+        try:
+            v, _ = lib.bdecode_strict(data)
+            nodes = lib.dget(v, "nodes")
+            if isinstance(nodes, list) and isinstance(got.get("dht_nodes"), list) and len(nodes) == len(got["dht_nodes"]):
+                for nd, shown in zip(nodes, got["dht_nodes"]):
+                    tail = ":%d" % nd[1]
+                    if shown.endswith(tail):
+                        tie.observed_host(nd[0], shown[:-len(tail)].encode(), "dht_nodes of the binary's report", field="disp", what="prints")
+            uu = lib.dget(lib.dget(v, "info"), "update-url")
+            if isinstance(uu, bytes) and isinstance(got.get("update_url"), str):
+                tie.observed_url(uu, got["update_url"].encode(), "update_url of the binary's report", what="prints")
+        except Exception:
+            pass
+
+
 def finish(ctx):
     ctx.assumptions += [
         "chrono 0.4.38's rendering of the creation date is MODELLED (Model/Calendar.v: closed-form civil-from-days where chrono "
         "walks its tables; proved for every second count) and tied to the real binary by the calendar sweep of this run; Bytes "
         "Display is C16's model (ByteSize.bs_display); neither is a Section variable of the run any more",
-        "url-crate normal form of update-url and of node hosts (Section variables url_norm, host_disp); generated in normal form",
+        "url-crate normal form of update-url and of node hosts: Section variables url_norm, host_disp in the older theorems; since X14 "
+        "concrete inside the fragments of Model/UrlConcrete.v (c_url_norm, c_host_disp; c07_concrete_*), where show with no library variable "
+        "left (c_show) is compared with the binary on every file of this run",
         "every integer in an accepted file fits i64 (bendy Value decoding in Infohash::from_input; exercised by the wideint mutants)",
     ]
     return ctx.finish(
@@ -1129,9 +1215,13 @@ def finish(ctx):
              "2^63, 2^64-1, each +-1) plus random second counts (log-uniform in size and uniform over chrono's range): the Creation "
              "Date row the real binary prints for a minimal torrent with that creation date against the extracted Calendar.cal, "
              "chrono_accepts and cal_parse (the row read back must be the stored integer), the whole tab report against "
-             "show_concrete, and against the Python calendar of this file; distinct by second count",
+             "show_concrete, and against the Python calendar of this file; distinct by second count. X14 (counts x14_*): every file of the "
+             "run through UrlConcrete.c_show (no url-crate variable left) against the binary's update_url / dht_nodes and verdict when the "
+             "model places its texts inside the fragments; every update-url, node host, printed host:port and encoded node of the run, plus "
+             "generated hosts / URLs, through the concrete instances and the hooks; distinct by (kind, outcome, first bytes, length class)",
         trusted_base=["Coq 8.16.1 kernel (coqc)", "tools/rs2v_summary.py (GenSummary)",
-                      "extraction with ExtrOcamlBasic + runner/driver.d/summary.ml, runner/driver.d/calendar.ml, runner/driver.d/endtoendshow.ml", "real imdl binary (debug profile)",
+                      "extraction with ExtrOcamlBasic + runner/driver.d/summary.ml, runner/driver.d/calendar.ml, runner/driver.d/endtoendshow.ml, "
+                      "runner/driver.d/urlconcrete.ml (c_show, c_url, c_host, c_hp, c_node)", "real imdl binary (debug profile)",
                       "Python oracle in tools/props/c07.py (lib.bdecode_strict, hashlib, datetime, posixpath)"],
     )
 
@@ -1141,11 +1231,16 @@ def replay(ctx, path):
     if case.get("e2e"):
         from props import e2e_create
         return e2e_create.replay(ctx, case)
+    if "x14_kind" in case:
+        from props import urlconcrete
+        return urlconcrete.replay(ctx, case)
     hx = case.get("torrent_hex")
     if not hx:
         print(json.dumps(case, indent=1)[:3000]); return 0
     data = bytes.fromhex(hx)
     ctx.need_rust(); ctx.need_runner()
+    if case.get("x14") == "c_show":
+        print("model c_show:", ctx.model(["c_show " + lib.hexs(data)])[0])
     tmp = tempfile.mkdtemp(prefix="c07-")
     try:
         runs = run_binary(ctx, tmp, data)
